@@ -109,7 +109,7 @@ pub fn run_c22(tier: Tier, seed: u64) -> i32 {
         &Stratum {
             id: "C22",
             rule: "INNER/LEFT/RIGHT/FULL/CROSS joins of 2-3 relation instances and semi/anti joins via EXISTS/IN, 1-2 equi-keys of mixed widths (BIGINT vs INTEGER), strings, dates; residual ON predicates touching the left side only, the right side only, or both; NULL keys and duplicates on both sides; empty sides; tiny/small/medium sizes so that the planner builds either side, uses dictionary gathers (<= 4096 build rows) and parallel builds; memory (1 and k batches) and Parquet layouts. distinct = distinct (statement skeleton, layout) with a non-empty reference answer",
-            n_dbs: (90, 1500),
+            n_dbs: (60, 1500),
             per_db: (30, 40),
             sizes: vec![SizeClass::Tiny, SizeClass::Small, SizeClass::Small, SizeClass::Medium],
             tables: 2,
@@ -133,7 +133,7 @@ pub fn run_c23(tier: Tier, seed: u64) -> i32 {
         "[NOT] EXISTS, [NOT] IN and scalar subqueries in WHERE and in the SELECT list, correlated and uncorrelated, NULLs on the outer operand / in the subquery result / both, empty subquery results, duplicate correlation values, combined with OR; judged against DataFusion with SQLite arbitration, and engine-vs-engine: the production pipeline must equal the pipeline without SubqueryDecorrelation and FlattenDependentJoin (row-by-row SubqueryExecutor). distinct = distinct (statement skeleton, layout) with a non-empty reference answer",
     );
     let scratch = Scratch::new("c23");
-    let n_dbs = tier.pick(80, 1500);
+    let n_dbs = tier.pick(50, 1500);
     let per_db = tier.pick(30, 40);
     let seeds: Vec<u64> = (0..n_dbs).map(|i| seed.wrapping_mul(3_000_017).wrapping_add(i as u64)).collect();
     let sp = scratch.path().to_path_buf();
@@ -252,7 +252,7 @@ pub fn run_c24(tier: Tier, seed: u64) -> i32 {
         "exploration",
         "UNION / INTERSECT / EXCEPT and their ALL forms over operand pairs with duplicates (multiplicities 0..4 on each side) and NULLs in any of 1-3 columns (integers, strings, dates), bare and inside a derived table with an outer aggregate; oracle = the SQL multiset definition (m+n, 1 if m+n>0, min(m,n), 1 if both>0, max(m-n,0), 1 if m>0 and n=0; NULLs not distinct) applied by the harness to the operands' own answers (each operand is a plain SELECT answered by DataFusion and cross-checked with the engine), plus DataFusion on the whole statement as a second opinion. distinct = distinct (operator, column-type tuple, multiplicity pattern) triples with non-empty operands",
     );
-    let n_dbs = tier.pick(150, 3000);
+    let n_dbs = tier.pick(100, 3000);
     let per_db = tier.pick(24, 30);
     let seeds: Vec<u64> = (0..n_dbs).map(|i| seed.wrapping_mul(3_000_017).wrapping_add(i as u64)).collect();
     par_run(&mut rep, seeds, default_threads(), |sd| {
@@ -374,7 +374,7 @@ pub fn run_c25(tier: Tier, seed: u64) -> i32 {
         &Stratum {
             id: "C25",
             rule: "statements with ORDER BY over 1-3 output columns (nullable int/float/string/date/boolean, expressions), ASC/DESC x default / NULLS FIRST / NULLS LAST, heavy ties, LIMIT in {0,1,2,3,5,10,1000} and OFFSET in {0,1,2,5,1000}; tiny/small/medium tables in 1..k batches and Parquet (full sort, fused top-k, multi-partition inputs). The engine's own key columns must be sorted as stated, and the rows must be a legal window [m, m+n) of the reference's full answer (tie groups free, boundary tie group any sub-multiset). distinct = distinct (statement skeleton, layout) with a non-empty reference answer",
-            n_dbs: (100, 1800),
+            n_dbs: (64, 1800),
             per_db: (30, 40),
             sizes: vec![SizeClass::Tiny, SizeClass::Small, SizeClass::Small, SizeClass::Medium],
             tables: 1,
@@ -398,7 +398,7 @@ pub fn run_c26(tier: Tier, seed: u64) -> i32 {
         &Stratum {
             id: "C26",
             rule: "ROW_NUMBER, RANK, DENSE_RANK, NTILE, LAG/LEAD (offset, default), FIRST/LAST_VALUE, SUM/COUNT/MIN/MAX/AVG OVER with PARTITION BY 0-2 keys, ORDER BY with explicit null ordering, ROWS frames (numeric offsets, UNBOUNDED, CURRENT ROW), the default RANGE frame with peers and an explicit RANGE frame; order-sensitive functions get a unique tiebreak key, peer-invariant ones are tested with ties; NULLs in partition keys, order keys and arguments. Judged against DataFusion with SQLite arbitration. distinct = distinct (statement skeleton, layout) with a non-empty reference answer",
-            n_dbs: (80, 1500),
+            n_dbs: (56, 1500),
             per_db: (30, 40),
             sizes: vec![SizeClass::Tiny, SizeClass::Small],
             tables: 1,
@@ -422,7 +422,7 @@ pub fn run_c21(tier: Tier, seed: u64) -> i32 {
         "grouped and global COUNT(*)/COUNT(x)/SUM/AVG/MIN/MAX/COUNT(DISTINCT) over nullable integer, double, string and date inputs with all-NULL groups, partly NULL groups, groups emptied by WHERE, LEFT JOIN misses and NULL keys; each statement is executed on every aggregation path the harness can force: memory one batch, memory many batches, Parquet whole-file, Parquet small row groups (morsel paths, dense-direct when the key is a NULL-free integer), a 64 KiB memory limit (spilling aggregate) and medium tables (parallel merge); every path's answer is judged against DataFusion (SQLite arbitration). distinct = distinct (statement skeleton, path) with a non-empty reference answer",
     );
     let scratch = Scratch::new("c21");
-    let n_dbs = tier.pick(50, 900);
+    let n_dbs = tier.pick(36, 900);
     let per_db = tier.pick(14, 24);
     let seeds: Vec<u64> = (0..n_dbs).map(|i| seed.wrapping_mul(3_000_017).wrapping_add(i as u64)).collect();
     let sp = scratch.path().to_path_buf();
@@ -530,7 +530,7 @@ pub fn run_c27(tier: Tier, seed: u64) -> i32 {
         "exploration",
         "GROUPING SETS (explicit lists incl. the empty set and duplicates), ROLLUP and CUBE over 1-3 columns (integer, int32, boolean) with NULLs IN the grouped columns, COUNT(*), SUM and GROUPING(); oracle = the definition: the harness issues one plain GROUP BY per set to DataFusion, pads absent columns with NULL, computes the GROUPING() bitmask and unions the results; DataFusion's native GROUPING SETS is a second opinion. distinct = distinct (clause kind, column count, set list) with a non-empty answer",
     );
-    let n_dbs = tier.pick(120, 2500);
+    let n_dbs = tier.pick(80, 2500);
     let per_db = tier.pick(12, 16);
     let seeds: Vec<u64> = (0..n_dbs).map(|i| seed.wrapping_mul(3_000_017).wrapping_add(i as u64)).collect();
     par_run(&mut rep, seeds, default_threads(), |sd| {
@@ -638,7 +638,7 @@ pub fn run_c28(tier: Tier, seed: u64) -> i32 {
         "exploration",
         "1-2 CTEs referenced 1-2 times (self-join of a CTE), nested WITH that reuses the outer name with a different body, CTE references inside IN/EXISTS subqueries, CTE bodies with aggregates over doubles; the engine's answer to the WITH statement must equal its own answer to the statement with every reference textually inlined (nearest enclosing definition wins), and DataFusion's answer to the inlined form (SQLite arbitrates on the original text). distinct = distinct (CTE shape, statement skeleton) with a non-empty answer",
     );
-    let n_dbs = tier.pick(120, 2500);
+    let n_dbs = tier.pick(80, 2500);
     let per_db = tier.pick(16, 20);
     let seeds: Vec<u64> = (0..n_dbs).map(|i| seed.wrapping_mul(3_000_017).wrapping_add(i as u64)).collect();
     par_run(&mut rep, seeds, default_threads(), |sd| {
